@@ -14,6 +14,7 @@ import OcVerif.Driver.RtStop
 import OcVerif.Driver.RtSock
 import OcVerif.Driver.RtConn
 import OcVerif.Driver.RtPrio
+import OcVerif.Driver.RtTrap
 import OcVerif.Driver.Co
 import OcVerif.Driver.Local
 import OcVerif.Driver.Beans
@@ -56,6 +57,7 @@ def dispatch (comp : String) : Option (String → String → Verdict) :=
   | "rtsock" => some Driver.RtSock.drive
   | "rtconn" => some Driver.RtConn.drive
   | "rtprio" => some Driver.RtPrio.drive
+  | "rttrap" => some Driver.RtTrap.drive
   | "co" => some Driver.Co.drive
   | "local" => some Driver.Local.drive
   | "beans" => some Driver.Beans.drive
